@@ -6,7 +6,7 @@ count an entry under the same condition — otherwise the hop count written by o
 Compared as canonical descriptors with the reference length abstracted to L."""
 import re
 from .. import flow
-from ..facts import callee_def
+from ..facts import callee_def, op_place
 from ..common import strip_generics
 
 H = "<preflate_rs::hash_chain_holder::HashChainHolderImpl<H> as preflate_rs::hash_chain_holder::HashChainHolder>::"
@@ -67,6 +67,23 @@ def m4(F, rep, rule="M4"):
         rep.add(rule, "hops-siblings", False, "", "ANCHOR-MISSING: %s" % e)
         return
     where = "%s:%s" % (b1.file, b1.line)
+    # hop_match may end its walk only where calculate_hops also would: at the window limit, or on finding the entry.  Any
+    # other way out (a chain budget, a distance cap ...) makes reconstruction depend on something analysis did not honour.
+    exits = []
+    for sb in sorted(b2.normal_blocks()):
+        st = b2.term(sb)
+        if st["k"] != "switch" or st.get("exp") or len(st["targets"]) != 1:
+            continue
+        p = op_place(st["d"])
+        dd = b2.single_def(p["l"]) if p is not None and not p["p"] else None
+        if dd and dd[2] == "assign" and dd[3]["k"] == "discr":
+            continue
+        d = re.sub(_LEN[1], "L", flow.describe(b2, st["d"]))
+        known = (re.match(r"^(Gt|Ge|Lt|Le)\(next\(into_iter\(.*iterate\(.*\)\)\) as Some\.0, min\(", d) or re.match(r"^(Ge|Gt|Le|Lt|Eq|Ne)\(.*prefix_compare\(", d)
+                 or re.match(r"^(Lt|Le|Gt|Ge)\(min\(.*remaining\(", d) or re.match(r"^(Eq|Ne)\(var\(\w+\), arg<u32>#1\)$", d))
+        if not known:
+            exits.append(d[:100])
+    rep.add(rule, "hops-siblings:no-extra-decision-in-hop_match", not exits, where, "decisions of hop_match beyond window limit / match test / hop count: %s" % exits)
     for k in sorted(p1):
         ok = p1[k] == p2[k] and len(p1[k]) == 1
         rep.add(rule, "hops-siblings:" + k, ok, where,
